@@ -200,7 +200,7 @@ func All() []Variant {
 		c, f := classOf(v.Name)
 		out = append(out, Variant{Name: v.Name, Class: c, MinFork: f, Make: v.Make})
 	}
-	return append(append(out, extensions()...), shapeVariants()...)
+	return append(append(append(out, extensions()...), shapeVariants()...), slashabilityVariants()...)
 }
 
 func hasPrefix(s, p string) bool { return len(s) >= len(p) && s[:len(p)] == p }
@@ -347,31 +347,31 @@ func extensions() []Variant {
 			return nil
 		})},
 		{"attester-slashing-duplicate-index", "attester_slashing", P0, edited(func(pre *chain.StateCtx, env *common.BeaconBlockEnvelope, ops *chain.BodyOps) error {
-			if len(*ops.AttesterSlashings) == 0 {
-				return ErrNotApplicable
+			if err := ensureAS(pre, env, ops); err != nil {
+				return err
 			}
 			a := &(*ops.AttesterSlashings)[0].Attestation1
 			a.AttestingIndices = append(a.AttestingIndices, a.AttestingIndices[len(a.AttestingIndices)-1])
 			return nil
 		})},
 		{"attester-slashing-index-out-of-range", "attester_slashing", P0, edited(func(pre *chain.StateCtx, env *common.BeaconBlockEnvelope, ops *chain.BodyOps) error {
-			if len(*ops.AttesterSlashings) == 0 {
-				return ErrNotApplicable
+			if err := ensureAS(pre, env, ops); err != nil {
+				return err
 			}
 			a := &(*ops.AttesterSlashings)[0].Attestation2
 			a.AttestingIndices = append(a.AttestingIndices, common.ValidatorIndex(pre.ValidatorCount()+1))
 			return nil
 		})},
 		{"attester-slashing-bad-signature-2", "attester_slashing", P0, edited(func(pre *chain.StateCtx, env *common.BeaconBlockEnvelope, ops *chain.BodyOps) error {
-			if len(*ops.AttesterSlashings) == 0 {
-				return ErrNotApplicable
+			if err := ensureAS(pre, env, ops); err != nil {
+				return err
 			}
 			(*ops.AttesterSlashings)[0].Attestation2.Signature = garbageSig
 			return nil
 		})},
 		{"attester-slashing-signed-other-fork", "attester_slashing", P0, edited(func(pre *chain.StateCtx, env *common.BeaconBlockEnvelope, ops *chain.BodyOps) error {
-			if len(*ops.AttesterSlashings) == 0 {
-				return ErrNotApplicable
+			if err := ensureAS(pre, env, ops); err != nil {
+				return err
 			}
 			a := &(*ops.AttesterSlashings)[0].Attestation1
 			d := pre.Domain(common.DOMAIN_BEACON_ATTESTER, a.Data.Target.Epoch)
@@ -389,8 +389,8 @@ func extensions() []Variant {
 		})},
 		// ---- proposer slashings ------------------------------------------------------------------
 		{"proposer-slashing-different-slots", "proposer_slashing", P0, edited(func(pre *chain.StateCtx, env *common.BeaconBlockEnvelope, ops *chain.BodyOps) error {
-			if len(*ops.ProposerSlashings) == 0 {
-				return ErrNotApplicable
+			if err := ensurePS(pre, env, ops); err != nil {
+				return err
 			}
 			h := &(*ops.ProposerSlashings)[0].SignedHeader2
 			h.Message.Slot++
@@ -398,8 +398,8 @@ func extensions() []Variant {
 			return nil
 		})},
 		{"proposer-slashing-different-proposers", "proposer_slashing", P0, edited(func(pre *chain.StateCtx, env *common.BeaconBlockEnvelope, ops *chain.BodyOps) error {
-			if len(*ops.ProposerSlashings) == 0 {
-				return ErrNotApplicable
+			if err := ensurePS(pre, env, ops); err != nil {
+				return err
 			}
 			h := &(*ops.ProposerSlashings)[0].SignedHeader2
 			h.Message.ProposerIndex = otherValidator(pre, h.Message.ProposerIndex)
@@ -407,16 +407,16 @@ func extensions() []Variant {
 			return nil
 		})},
 		{"proposer-slashing-bad-signature-1", "proposer_slashing", P0, edited(func(pre *chain.StateCtx, env *common.BeaconBlockEnvelope, ops *chain.BodyOps) error {
-			if len(*ops.ProposerSlashings) == 0 {
-				return ErrNotApplicable
+			if err := ensurePS(pre, env, ops); err != nil {
+				return err
 			}
 			h := &(*ops.ProposerSlashings)[0].SignedHeader1
 			h.Signature = pre.Keys.Sign1(pre.KeyOf(otherValidator(pre, h.Message.ProposerIndex)), htr(&h.Message), pre.Domain(common.DOMAIN_BEACON_PROPOSER, pre.Spec.SlotToEpoch(h.Message.Slot)))
 			return nil
 		})},
 		{"proposer-slashing-wrong-domain-type", "proposer_slashing", P0, edited(func(pre *chain.StateCtx, env *common.BeaconBlockEnvelope, ops *chain.BodyOps) error {
-			if len(*ops.ProposerSlashings) == 0 {
-				return ErrNotApplicable
+			if err := ensurePS(pre, env, ops); err != nil {
+				return err
 			}
 			h := &(*ops.ProposerSlashings)[0].SignedHeader2
 			h.Signature = pre.Keys.Sign1(pre.KeyOf(h.Message.ProposerIndex), htr(&h.Message), pre.Domain(common.DOMAIN_BEACON_ATTESTER, pre.Spec.SlotToEpoch(h.Message.Slot)))
@@ -469,8 +469,8 @@ func extensions() []Variant {
 		})},
 		// ---- exits -------------------------------------------------------------------------------
 		{"exit-future-epoch", "exit", P0, edited(func(pre *chain.StateCtx, env *common.BeaconBlockEnvelope, ops *chain.BodyOps) error {
-			if len(*ops.VoluntaryExits) == 0 {
-				return ErrNotApplicable
+			if err := ensureExit(pre, env, ops); err != nil {
+				return err
 			}
 			e := &(*ops.VoluntaryExits)[0]
 			e.Message.Epoch = pre.Epoch() + 1
@@ -478,16 +478,16 @@ func extensions() []Variant {
 			return nil
 		})},
 		{"exit-wrong-key", "exit", P0, edited(func(pre *chain.StateCtx, env *common.BeaconBlockEnvelope, ops *chain.BodyOps) error {
-			if len(*ops.VoluntaryExits) == 0 {
-				return ErrNotApplicable
+			if err := ensureExit(pre, env, ops); err != nil {
+				return err
 			}
 			e := &(*ops.VoluntaryExits)[0]
 			e.Signature = pre.Keys.Sign1(pre.KeyOf(otherValidator(pre, e.Message.ValidatorIndex)), htr(&e.Message), pre.ExitDomain(e.Message.Epoch))
 			return nil
 		})},
 		{"exit-validator-out-of-range", "exit", P0, edited(func(pre *chain.StateCtx, env *common.BeaconBlockEnvelope, ops *chain.BodyOps) error {
-			if len(*ops.VoluntaryExits) == 0 {
-				return ErrNotApplicable
+			if err := ensureExit(pre, env, ops); err != nil {
+				return err
 			}
 			e := &(*ops.VoluntaryExits)[0]
 			k := pre.KeyOf(e.Message.ValidatorIndex)
@@ -496,8 +496,8 @@ func extensions() []Variant {
 			return nil
 		})},
 		{"exit-wrong-domain-type", "exit", P0, edited(func(pre *chain.StateCtx, env *common.BeaconBlockEnvelope, ops *chain.BodyOps) error {
-			if len(*ops.VoluntaryExits) == 0 {
-				return ErrNotApplicable
+			if err := ensureExit(pre, env, ops); err != nil {
+				return err
 			}
 			e := &(*ops.VoluntaryExits)[0]
 			d := pre.ExitDomain(e.Message.Epoch)
@@ -506,8 +506,8 @@ func extensions() []Variant {
 			return nil
 		})},
 		{"exit-wrong-gvr", "exit", P0, edited(func(pre *chain.StateCtx, env *common.BeaconBlockEnvelope, ops *chain.BodyOps) error {
-			if len(*ops.VoluntaryExits) == 0 {
-				return ErrNotApplicable
+			if err := ensureExit(pre, env, ops); err != nil {
+				return err
 			}
 			e := &(*ops.VoluntaryExits)[0]
 			d := pre.ExitDomain(e.Message.Epoch)
@@ -517,8 +517,8 @@ func extensions() []Variant {
 		})},
 		// ---- BLS-to-execution changes --------------------------------------------------------------
 		{"bls-change-index-out-of-range", "bls_change", chain.Capella, edited(func(pre *chain.StateCtx, env *common.BeaconBlockEnvelope, ops *chain.BodyOps) error {
-			if ops.BLSChanges == nil || len(*ops.BLSChanges) == 0 {
-				return ErrNotApplicable
+			if err := ensureBLS(pre, env, ops); err != nil {
+				return err
 			}
 			c := &(*ops.BLSChanges)[0]
 			k := chain.WithdrawalKey(pre.KeyOf(c.BLSToExecutionChange.ValidatorIndex))
@@ -534,8 +534,8 @@ func extensions() []Variant {
 			return nil
 		})},
 		{"bls-change-pubkey-hash-mismatch", "bls_change", chain.Capella, edited(func(pre *chain.StateCtx, env *common.BeaconBlockEnvelope, ops *chain.BodyOps) error {
-			if ops.BLSChanges == nil || len(*ops.BLSChanges) == 0 {
-				return ErrNotApplicable
+			if err := ensureBLS(pre, env, ops); err != nil {
+				return err
 			}
 			c := &(*ops.BLSChanges)[0]
 			other := chain.WithdrawalKey(pre.KeyOf(otherValidator(pre, c.BLSToExecutionChange.ValidatorIndex)))
@@ -544,8 +544,8 @@ func extensions() []Variant {
 			return nil
 		})},
 		{"bls-change-fork-dependent-domain", "bls_change", chain.Capella, edited(func(pre *chain.StateCtx, env *common.BeaconBlockEnvelope, ops *chain.BodyOps) error {
-			if ops.BLSChanges == nil || len(*ops.BLSChanges) == 0 {
-				return ErrNotApplicable
+			if err := ensureBLS(pre, env, ops); err != nil {
+				return err
 			}
 			c := &(*ops.BLSChanges)[0]
 			d := pre.BLSChangeDomain()
@@ -640,8 +640,8 @@ func extensions() []Variant {
 // fails on "sorted and unique" (or "non-empty") alone.
 func indexedShape(second bool, edit func(ix []common.ValidatorIndex) ([]common.ValidatorIndex, error)) bodyEdit {
 	return func(pre *chain.StateCtx, env *common.BeaconBlockEnvelope, ops *chain.BodyOps) error {
-		if len(*ops.AttesterSlashings) == 0 {
-			return ErrNotApplicable
+		if err := ensureAS(pre, env, ops); err != nil {
+			return err
 		}
 		a := &(*ops.AttesterSlashings)[0].Attestation1
 		if second {
@@ -700,6 +700,158 @@ func shapeVariants() []Variant {
 			}))})
 	}
 	return out
+}
+
+// slashabilityVariants ADD one correctly signed attester slashing (two healthy validators that no other
+// operation of the block touches) whose two attestation data are in a chosen relation, so that ONLY
+// is_slashable_attestation_data(data_1, data_2) decides: "1 surrounds 2" and double votes are slashable
+// (controls), "2 surrounds 1", equal sources, disjoint spans and identical data are not.
+func slashabilityVariants() []Variant {
+	type span struct{ s1, t1, s2, t2 int } // epochs relative to base = max(current epoch, 3) - 3
+	mk := func(name string, sp span, sameRoots bool) Variant {
+		return Variant{name, "attestation_data_slashability", chain.Phase0, edited(func(pre *chain.StateCtx, env *common.BeaconBlockEnvelope, ops *chain.BodyOps) error {
+			if len(*ops.AttesterSlashings) > 0 || len(*ops.ProposerSlashings) > 0 || len(*ops.VoluntaryExits) > 0 {
+				return ErrNotApplicable
+			}
+			epoch := pre.Epoch()
+			var who []common.ValidatorIndex
+			act := pre.ActiveIndices()
+			for i := len(act) - 1; i >= 0 && len(who) < 2; i-- {
+				v := pre.Validator(act[i])
+				if act[i] != env.ProposerIndex && !v.Slashed && v.ExitEpoch == chain.FarFuture {
+					who = append([]common.ValidatorIndex{act[i]}, who...)
+				}
+			}
+			if len(who) < 2 || len(act) < 8 {
+				return ErrNotApplicable
+			}
+			base := common.Epoch(0)
+			if epoch > 3 {
+				base = epoch - 3
+			}
+			data := func(s, t int, tag byte) phase0.AttestationData {
+				d := phase0.AttestationData{Slot: common.Slot(base+common.Epoch(t)) * pre.Spec.SLOTS_PER_EPOCH, Index: 0,
+					Source: common.Checkpoint{Epoch: base + common.Epoch(s)}, Target: common.Checkpoint{Epoch: base + common.Epoch(t)}}
+				d.BeaconBlockRoot[0], d.Source.Root[0], d.Target.Root[0] = 0xaa, 0xbb, tag
+				return d
+			}
+			d1 := data(sp.s1, sp.t1, 0x01)
+			tag2 := byte(0x02)
+			if sameRoots {
+				tag2 = 0x01
+			}
+			d2 := data(sp.s2, sp.t2, tag2)
+			sign := func(d *phase0.AttestationData) phase0.IndexedAttestation {
+				return phase0.IndexedAttestation{AttestingIndices: append(common.CommitteeIndices(nil), who...), Data: *d,
+					Signature: chain.SignAttestationData(pre.Keys, d, pre.KeysOf(who), pre.Domain(common.DOMAIN_BEACON_ATTESTER, d.Target.Epoch))}
+			}
+			*ops.AttesterSlashings = append(*ops.AttesterSlashings, phase0.AttesterSlashing{Attestation1: sign(&d1), Attestation2: sign(&d2)})
+			return nil
+		})}
+	}
+	return []Variant{
+		mk("aslash-data-1-surrounds-2-control", span{0, 3, 1, 2}, false),
+		mk("aslash-data-2-surrounds-1", span{1, 2, 0, 3}, false),
+		mk("aslash-data-equal-source-inner-target", span{0, 3, 0, 2}, false),
+		mk("aslash-data-inner-source-equal-target-control", span{0, 3, 1, 3}, false), // same target epoch, different data: double vote
+		mk("aslash-data-disjoint-spans", span{0, 1, 2, 3}, false),
+		mk("aslash-data-adjacent-spans", span{0, 2, 2, 3}, false),
+		mk("aslash-data-identical", span{1, 2, 1, 2}, true),
+		mk("aslash-data-double-vote-control", span{1, 2, 1, 2}, false),
+	}
+}
+
+// ensure*: variants about an operation kind do not depend on the honest block happening to carry one: when it
+// carries no slashing / exit at all, a VALID operation of the kind is added first (about healthy validators
+// that are not the proposer), and the variant then corrupts that one.
+func quiet(ops *chain.BodyOps) bool {
+	return len(*ops.ProposerSlashings) == 0 && len(*ops.AttesterSlashings) == 0 && len(*ops.VoluntaryExits) == 0 &&
+		(ops.BLSChanges == nil || len(*ops.BLSChanges) == 0)
+}
+
+func healthyFromTop(pre *chain.StateCtx, env *common.BeaconBlockEnvelope, n int, ok func(common.ValidatorIndex) bool) []common.ValidatorIndex {
+	act := pre.ActiveIndices()
+	if len(act) < 8 {
+		return nil
+	}
+	var who []common.ValidatorIndex
+	for i := len(act) - 1; i >= 0 && len(who) < n; i-- {
+		v := pre.Validator(act[i])
+		if act[i] != env.ProposerIndex && !v.Slashed && v.ExitEpoch == chain.FarFuture && (ok == nil || ok(act[i])) {
+			who = append([]common.ValidatorIndex{act[i]}, who...)
+		}
+	}
+	if len(who) < n {
+		return nil
+	}
+	return who
+}
+
+func ensurePS(pre *chain.StateCtx, env *common.BeaconBlockEnvelope, ops *chain.BodyOps) error {
+	if len(*ops.ProposerSlashings) > 0 {
+		return nil
+	}
+	who := healthyFromTop(pre, env, 1, nil)
+	if !quiet(ops) || who == nil {
+		return ErrNotApplicable
+	}
+	ps, err := pre.MakeProposerSlashing(chain.ProposerSlashingPlan{Proposer: who[0]})
+	if err != nil {
+		return ErrNotApplicable
+	}
+	*ops.ProposerSlashings = append(*ops.ProposerSlashings, *ps)
+	return nil
+}
+
+func ensureAS(pre *chain.StateCtx, env *common.BeaconBlockEnvelope, ops *chain.BodyOps) error {
+	if len(*ops.AttesterSlashings) > 0 {
+		return nil
+	}
+	who := healthyFromTop(pre, env, 3, nil)
+	if !quiet(ops) || who == nil {
+		return ErrNotApplicable
+	}
+	as, err := pre.MakeAttesterSlashing(chain.AttesterSlashingPlan{Indices: who})
+	if err != nil {
+		return ErrNotApplicable
+	}
+	*ops.AttesterSlashings = append(*ops.AttesterSlashings, *as)
+	return nil
+}
+
+func ensureExit(pre *chain.StateCtx, env *common.BeaconBlockEnvelope, ops *chain.BodyOps) error {
+	if len(*ops.VoluntaryExits) > 0 {
+		return nil
+	}
+	who := healthyFromTop(pre, env, 1, pre.CanExit)
+	if !quiet(ops) || who == nil {
+		return ErrNotApplicable
+	}
+	e, err := pre.MakeExit(chain.ExitPlan{Validator: who[0]})
+	if err != nil {
+		return ErrNotApplicable
+	}
+	*ops.VoluntaryExits = append(*ops.VoluntaryExits, *e)
+	return nil
+}
+
+func ensureBLS(pre *chain.StateCtx, env *common.BeaconBlockEnvelope, ops *chain.BodyOps) error {
+	if ops.BLSChanges == nil || pre.Fork() < chain.Capella {
+		return ErrNotApplicable
+	}
+	if len(*ops.BLSChanges) > 0 {
+		return nil
+	}
+	who := healthyFromTop(pre, env, 1, pre.HasBLSCredentials)
+	if !quiet(ops) || who == nil {
+		return ErrNotApplicable
+	}
+	c, err := pre.MakeBLSChange(chain.BLSChangePlan{Validator: who[0]})
+	if err != nil {
+		return ErrNotApplicable
+	}
+	*ops.BLSChanges = append(*ops.BLSChanges, *c)
+	return nil
 }
 
 func editWithdrawals(fn func(ws []common.Withdrawal) ([]common.Withdrawal, error)) bodyEdit {
